@@ -10,7 +10,7 @@ for name,m in sorted(T.items()):
     log=open(os.path.join(d,'eval.log')).read() if os.path.exists(os.path.join(d,'eval.log')) else ''
     caught=sorted(set(re.findall(r'VIOLATION property=(C\d+)',log)))
     sigs=sorted(set(re.findall(r'sig="([^"]+)"',log)))[:6]
-    meta={"name":name,"breaks_property":m["property"],"origin":"independent sub-agent given only the property text and a scratch worktree",
+    meta={"name":name,"breaks_property":m["property"],"origin":"independent sub-agent given only the property text and a scratch worktree" + (" (round 2: it was also told the two round-1 changes for this property and asked for different ones)" if m.get("round")==2 else ""),
           "change":m["change"],"needs_to_manifest":m["needs"],
           "confirmed":"applied to a scratch worktree of /repo HEAD (tools/seed_eval.sh): builds; existing tests of the touched packages pass (agent also ran the full suite); demo fails with the change and passes without it; then our quick checks were run with VERIF_REPO_DIR pointing at the changed tree",
           "demo":m["demo"],"ran":m.get("ran","tools/seed_eval.sh"),"caught_by":caught or m.get("caught_by",[]),"signatures":sigs,"note":m.get("note","")}
